@@ -21,6 +21,7 @@ from vlib.tr_fault import tr_fault, fault_values
 from vlib.syslevel import run_many
 from vlib.faultlib import run_fscript, call_line, effective_config, cfg_fields, obs_fields, PLAUSIBLE, NEVER_FAIL, SHORT_COUNT, SHORT_FNS, ALL_ERRNOS_ALWAYS
 
+PROMPT_BOUND_MS = 1000       # "promptly": on the sinks marked prompt=True even the fastest of three fault-free calls must stay below this (a healthy call takes a few ms)
 ELAPSED_BOUND_MS = 5000      # generous: a healthy call takes a few ms; a blocked one never returns (8 s alarm in the caller)
 ALL_DS = (b"io %{cwd} %{rpname} %{tty} %{tty_uid} %{tty_username} %{username} %{eusername} %{group} %{egroup} %{hostname} %{domain} %{login} "
           b"%{cgroup:name=systemd} %{cgroup:1} %{systemd_unit_name} %{datetime} %{datetime:%s} %{timestamp} %{timestamp_ms} %{timestamp_us} %{ipaddr} "
@@ -36,8 +37,8 @@ def scenarios(tier, fv):
     """name -> dict(lines, setup, world, argv, faults: bool (all single faults), quick: bool)"""
     S = []
 
-    def sc(name, lines, setup=(), world=("ok", "plain", "plain", "1"), argv=(b"true", b"arg"), faults=True, quick=False, ini=True, calls=1, how=None):
-        S.append({"calls": calls, "how": how, "name": name, "lines": [b"[snoopy]"] + list(lines) if ini else None, "setup": ([] if any(x.startswith("stdin\t") for x in setup) else ["stdin\tnull"]) + list(setup), "world": list(world),
+    def sc(name, lines, setup=(), world=("ok", "plain", "plain", "1"), argv=(b"true", b"arg"), faults=True, quick=False, ini=True, calls=1, how=None, prompt=False):
+        S.append({"calls": calls, "how": how, "prompt": prompt, "name": name, "lines": [b"[snoopy]"] + list(lines) if ini else None, "setup": ([] if any(x.startswith("stdin\t") for x in setup) else ["stdin\tnull"]) + list(setup), "world": list(world),
                   "argv": list(argv), "faults": faults, "quick": quick})
     dl = "devlog\t@D@/dl.sock\t0"
     sc("ini-absent-defaults", [], setup=[dl], quick=True, ini=False)
@@ -100,11 +101,20 @@ def scenarios(tier, fv):
     sc("second-thread-after-filter-drop", [b"output = file:@D@/out.log", b'filter_chain = "only_tty"'], quick=True, faults=False, calls=3, how=[None, "thread", None])
     # the caller arrives with a stale errno (EINTR from an interrupted pause()/read()); the configuration file is there and readable
     sc("caller-errno-eintr", [b"output = file:@D@/out.log", b'message_format = "e %{cmdline}"'], quick=True, faults=False, calls=2, how=["errno=4", "errno=11"])
+    # a STALE socket file (its owner is gone, connect() is refused) at the socket path and behind /dev/log: the exec must still be reached PROMPTLY -
+    # three calls, the FASTEST of them is held against the bound (robust against load spikes; a retry-with-sleep policy delays every one of them)
+    sc("sink-socket-stale-file", [b"output = socket:@D@/stale.sock", b'message_format = "m %{cmdline}"'], setup=["stalesock\t@D@/stale.sock"], world=("absent", "plain", "plain", "1"),
+       quick=True, faults=False, calls=3, prompt=True)
+    sc("sink-devlog-stale-file", [b"output = devlog"], setup=["devlog-stale\t@D@/dlstale.sock"], world=("absent", "plain", "plain", "1"), quick=True, faults=False, calls=3, prompt=True)
     sc("sink-socket-absent", [b"output = socket:@D@/nothing.sock", b'message_format = "m %{cmdline}"'], world=("absent", "plain", "plain", "1"), quick=True, faults=False)
     sc("sink-socket-full-unread", [b"output = socket:@D@/s.sock", b'message_format = "m %{cmdline}"'], setup=["dgram\t@D@/s.sock\t1"], world=("dgramfull", "plain", "plain", "1"), quick=True, faults=False)
     sc("sink-devlog-absent", [b"output = devlog"], setup=["devlog-absent\t@D@/nothing.sock"], world=("absent", "plain", "plain", "1"), quick=True, faults=False)
     sc("sink-devlog-full-unread", [b"output = devlog"], setup=["devlog\t@D@/dl.sock\t1"], world=("dgramfull", "plain", "plain", "1"), quick=True, faults=False)
     sc("sink-stdout-devfull", [b"output = stdout"], setup=["stdfd\t1\tfile:/dev/full"], world=("nospace", "plain", "plain", "1"), quick=True, faults=False)
+    # "promptly" on every real sink state that needs no privileged set-up: three fault-free calls, the fastest held against PROMPT_BOUND_MS
+    for x in S:
+        if x["name"].startswith("sink-") and not x["faults"] and not any(l.startswith(("uid\t", "#tmpfs")) for l in x["setup"]):
+            x["calls"], x["prompt"] = max(x["calls"], 3), True
     return S
 
 
@@ -271,6 +281,11 @@ def check(run):
     def consume(s, res, script, plans, retcodes, tag):
         calls = res["calls"]
         state["nruns"] += 1
+        if s.get("prompt") and tag == "base":
+            ms = [int(c["ret"][5]) for c in calls if c["ret"] is not None and not c["fatal"]]
+            if len(ms) >= 3 and min(ms) > PROMPT_BOUND_MS:
+                report(s, script, ms.index(min(ms)), "-", "timeout", "not-prompt", "the real exec was reached only after %s ms in each of %d fault-free calls (fastest %d ms, bound %d ms): "
+                       "the caller is held up by the log sink" % (ms, len(ms), min(ms), PROMPT_BOUND_MS))
         for i, pl in enumerate(plans):
             if i >= len(calls):
                 report(s, script, i, pl, "crash", "crash:process", "the caller process ended (status %s) before call %d: %s" % (res["status"], i, res["stderr"][-300:]))
